@@ -11,3 +11,43 @@ package terminalformat
 //@ ensures true
 //@ loop 1 invariant true
 //@ loop 2 invariant len(lines) >= 1
+
+// Table (the tabular output of report, tags, today; property C06, and the alignment part of C18): a table has at least
+// two columns, remembers the widest cell of every column, and its cursor is the number of cells modulo the number of
+// columns. Every cell is at most as wide as the widest cell of its column, so the padding Collect computes is never
+// negative and every cell is printed padded to exactly that width.
+//@ spec tblOk(t *Table) bool = t != nil && t.numberOfColumns >= 2 && len(t.longestCell) == t.numberOfColumns && 0 <= t.currentColumn && t.currentColumn < t.numberOfColumns && t.currentColumn == emod(len(t.cells), t.numberOfColumns) && forall(i, 0, len(t.cells), 0 <= t.cells[i].len && t.cells[i].len <= t.longestCell[emod(i, t.numberOfColumns)])
+
+//@ func NewTable
+//@ requires numberOfColumns >= 2
+//@ ensures fresh(result) && tblOk(result) && len(result.cells) == 0
+
+//@ func (*Table).Cell
+//@ requires tblOk(t)
+//@ modifies t.cells, t.currentColumn, elems(t.longestCell)
+//@ ensures result == t && tblOk(t) && len(t.cells) == old(len(t.cells)) + 1
+
+//@ func (*Table).CellL
+//@ requires tblOk(t)
+//@ modifies t.cells, t.currentColumn, elems(t.longestCell)
+//@ ensures result == t && tblOk(t) && len(t.cells) == old(len(t.cells)) + 1
+//@ func (*Table).CellR
+//@ requires tblOk(t)
+//@ modifies t.cells, t.currentColumn, elems(t.longestCell)
+//@ ensures result == t && tblOk(t) && len(t.cells) == old(len(t.cells)) + 1
+//@ func (*Table).Fill
+//@ requires tblOk(t)
+//@ modifies t.cells, t.currentColumn, elems(t.longestCell)
+//@ ensures result == t && tblOk(t) && len(t.cells) == old(len(t.cells)) + 1
+
+//@ func (*Table).Skip
+//@ requires tblOk(t)
+//@ modifies t.cells, t.currentColumn, elems(t.longestCell)
+//@ ensures result == t && tblOk(t) && len(t.cells) == old(len(t.cells)) + max(0, numberOfCells)
+//@ loop 1 invariant tblOk(t) && 0 <= i && len(t.cells) == old(len(t.cells)) + i && i <= max(0, numberOfCells)
+
+// Collect: prints every cell; the padding is never negative (strings.Repeat does not panic).
+//@ func (*Table).Collect
+//@ requires tblOk(t) && fn != nil
+//@ ensures true
+//@ loop 1 invariant true
